@@ -92,6 +92,18 @@ def gen_dt(rng):
                     rng.randrange(1, 10000)])
     m = rng.randrange(1, 13)
     d = rng.randrange(1, calendar.monthrange(y, m)[1] + 1)
+    r = rng.random()
+    if r < 0.06:
+        # leap day (of the nearest leap year that is not a century
+        # exception)
+        y = max(4, y - y % 4)
+        if not calendar.isleap(y):
+            y += 4
+        m, d = 2, 29
+    elif r < 0.14:
+        # month ends, year ends and beginnings
+        m, d = rng.choice([(12, 31), (1, 1), (2, 28), (3, 31), (4, 30),
+                           (1, 31), (10, 31), (11, 30)])
     return [y, m, d, rng.choice([0, 11, 12, 13, 23, rng.randrange(24)]),
             rng.randrange(60), rng.randrange(60),
             rng.choice([0, 1, 999999, 500000, rng.randrange(10 ** 6)])]
@@ -109,6 +121,12 @@ def gen_parse(rng):
                             rng.randrange(-1439, 1440) * 60])
     if t["twodigit"]:
         op[2][0] = rng.randrange(0, 100)     # only the last two digits count
+        if (op[2][1], op[2][2]) == (2, 29):
+            # keep the leap day: a two-digit year divisible by four (00 is
+            # a leap year in 2000, the only century a pivot can reach here
+            # besides 2100)
+            op[2][0] = rng.choice([0, 4, 8, 12, 16, 20, 24, 28, 32, 48, 64,
+                                   72, 96])
     return op
 
 
